@@ -28,14 +28,22 @@ PROPS = {
             "Memory.triples under interference: heap havocked at every yield by an arbitrary sequence of public "
             "mutators: never raises, never iterates a live container across a yield, yields only triples that match "
             "and were in the graph at some moment since iteration began (proved)",
+            "Memory.remove(pattern, context): Q' = Q minus the matching triples of the requested context (of every context "
+            "when None) for all patterns and contexts incl. triples shared by several graphs and triples that carry the "
+            "store's default context info; the union index follows by RI; known contexts unchanged; the 57-clause "
+            "representation invariant and the Evolves relation (used by the interference proof) are re-established - "
+            "proved with an outer invariant over the processed triples and an inner invariant over the processed context "
+            "keys of the triple being taken apart (RI minus the two union-index clauses for that triple); "
+            "Memory.remove_graph = that contract + forgetting the graph (proved)",
             "Memory.__len__, __contexts, __triple_has_context, add_graph (proved)",
             "SimpleMemory.add, remove, triples (8 shapes), __len__ (proved, remove/len by loop invariants)",
             "Graph.add, remove, triples (non-path), __len__, __iter__, __contains__, set, addN, +=, -=, +, -, *, ^ "
             "against the abstract Store contract, for all terms incl. falsy ones (proved)",
         ],
         "clauses_not_decided": [
-            "Memory.remove / remove_graph: not yet under proof (store-iterates-its-own-generator-while-mutating); "
-            "their abstract contract is assumed for Memory and covered by the bounded stand-in only",
+            "Memory.remove consumes self.triples(...) lazily while its body deletes: the loop is verified as an iteration "
+            "over the entry-state result of Memory.triples (argued from the snapshot discipline proved in the interference "
+            "variant, not mechanised); the interleaving itself is covered by the bounded stand-in",
             "real threads; stores other than Memory and SimpleMemory",
         ],
         "explanation": "Every function between the property and the code has a contract; the concrete stores are "
@@ -43,11 +51,11 @@ PROPS = {
                        "composition over histories is the induction of DESIGN.md 2.9.",
         "assumptions": A_COMMON,
         "level_text": "Deductive proof (all inputs, all 8 pattern shapes, falsy terms, all interleavings of an open "
-                      "iterator with mutators) of the contracts listed under clauses_decided; Memory.remove is "
-                      "bounded only, so the evidence level degrades to 'other' whenever anything is undecided.",
+                      "iterator with mutators) of the contracts listed under clauses_decided, now including Memory.remove / "
+                      "remove_graph; the evidence level degrades to 'other' whenever anything is undecided.",
         "level_note": "Trusted: PyVC encoding of the Python subset, z3/cvc5, axiomatised builtins, the abstract "
-                      "Store contract <-> concrete store refinement argument (DESIGN 6.1), Memory.remove contract "
-                      "(assumed, bounded), __ctx_to_str key model.",
+                      "Store contract <-> concrete store refinement argument (DESIGN 6.1), eager reading of the lazy "
+                      "self-iteration in Memory.remove, __ctx_to_str key model.",
     },
     "C02": {
         "modules": ["contracts.c02_dataset", "contracts.c01_memory"],
@@ -81,7 +89,7 @@ PROPS = {
         "level_text": "Deductive proof of the per-method contracts over the quad view (all argument shapes incl. empty "
                       "graph objects and unknown names); a few completeness VCs exceed the solver budget and are "
                       "covered by the exhaustive small-scope run, hence category 'other'.",
-        "level_note": "Trusted: abstract Store contract (proved for the concrete stores in C01 except Memory.remove), "
+        "level_note": "Trusted: abstract Store contract (proved for the concrete stores in C01 incl. Memory.remove / remove_graph), "
                       "stored-context-object model of Store.contexts, PyVC/z3/cvc5.",
     },
     "C04": {
@@ -265,6 +273,7 @@ PROPS = {
     },
     "C03": {
         "modules": ["contracts.c03_lists"],
+        "extra": [{"kind": "vt", "name": "string-escapers", "module": "contracts.c05_escapes"}],
         "claim_level": "other",
         "design_ref": "6.3",
         "technique": TECH,
@@ -274,11 +283,18 @@ PROPS = {
             "chain minus the iteration counter) and return True exactly for a chain that ends without revisiting a cell "
             "and whose cells carry nothing but rdf:first / rdf:rest - so a cyclic or annotated list is never written in "
             "( ... ) form, where its extra triples would be lost (proved, ghost chain + witness map)",
+            "string escapers against the W3C STRING_LITERAL_QUOTE grammar, for ALL strings over Unicode scalar values: "
+            "nt._quote_encode (N-Triples / N-Quads literal bodies) and the single-line branch of Literal._quote_encode "
+            "(Turtle / N3 / TriG / SPARQL / n3()) write one pair of quotes around a body that is a sequence of grammar items "
+            "(plain character, ECHAR, UCHAR) and that the grammar reads back as exactly the original string - per-character "
+            "obligations generated from the real replace-chain (re-extracted from /repo on every run) and discharged by z3 "
+            "over every code point; lifted to strings by the homomorphism lemma for one-character str.replace (assumed, A3) "
+            "(proved; counterexample code points are replayed on the real function)",
         ],
         "clauses_not_decided": [
-            "that parse(serialize(g)) is isomorphic to g with identical terms: string escaping (_quote_encode, "
-            "_literal_n3), qname computation, the recursive descent / SAX / JSON parsers - string grammars outside what "
-            "PyVC + z3/cvc5 string theories decide (replace_all chains time out): bounded stand-in only, 35 graphs x 8 "
+            "that parse(serialize(g)) is isomorphic to g with identical terms: the triple-quoted branch of "
+            "Literal._quote_encode, IRI and XML/JSON escaping, qname computation, the recursive descent / SAX / JSON "
+            "parsers (whether rdflib's own readers implement the grammar's reading) - bounded stand-in only, 35 graphs x 8 "
             "serializers x 2 option sets, 20 s termination alarm",
             "doList / p_squared / s_squared control flow, RDF/XML and JSON-LD list handling: bounded only",
         ],
@@ -292,6 +308,7 @@ PROPS = {
     },
     "C05": {
         "modules": ["contracts.c12_labels"],
+        "extra": [{"kind": "vt", "name": "string-escapers", "module": "contracts.c05_escapes"}],
         "claim_level": "other",
         "design_ref": "6.5",
         "technique": TECH,
@@ -299,19 +316,30 @@ PROPS = {
             "N-Triples / N-Quads, Turtle / TriG and JSON-LD documents: a blank node label repeated inside one document "
             "denotes one node and different labels different nodes (W3CNTriplesParser.nodeid, SinkParser.anonymousNode, "
             "jsonld Parser._bnode, TriXHandler.get_bnode against the label-map invariant - proved; shared with C12)",
+            "N-Triples / N-Quads output, literal strings: " + "string escapers against the W3C STRING_LITERAL_QUOTE grammar, for ALL strings over Unicode scalar values: "
+            "nt._quote_encode (N-Triples / N-Quads literal bodies) and the single-line branch of Literal._quote_encode "
+            "(Turtle / N3 / TriG / SPARQL / n3()) write one pair of quotes around a body that is a sequence of grammar items "
+            "(plain character, ECHAR, UCHAR) and that the grammar reads back as exactly the original string - per-character "
+            "obligations generated from the real replace-chain (re-extracted from /repo on every run) and discharged by z3 "
+            "over every code point; lifted to strings by the homomorphism lemma for one-character str.replace (assumed, A3) "
+            "(proved; counterexample code points are replayed on the real function)",
         ],
         "clauses_not_decided": [
             "that every legal spelling (quoting styles, escapes, prefixes, relative IRIs, abbreviations, comments) parses to "
-            "the same graph; the five ways of handing a document to parse(); that N-Triples / N-Quads output matches the "
-            "W3C grammar and XML / JSON outputs are well-formed: recursive descent / regex / SAX / JSON code over strings - "
-            "bounded stand-in only (10 documents spelling one 16-triple graph x 5 input kinds; falsy list members; label "
-            "scope across TriG / N-Quads graph blocks; the C03 zoo against a strict line grammar)",
+            "the same graph; the five ways of handing a document to parse(); the IRI / blank-node-label / language-tag parts "
+            "of N-Triples / N-Quads output lines and that XML / JSON outputs are well-formed: recursive descent / regex / SAX "
+            "/ JSON code over strings - bounded stand-in only (10 documents spelling one 16-triple graph x 5 input kinds, "
+            "incl. IRIs mixing \\u and \\U escapes; falsy list members; label scope across TriG / N-Quads graph blocks; the "
+            "C03 zoo against a strict line grammar; EVERY Unicode scalar value inside plain / language-tagged / typed "
+            "literals through the nt / nt11 / nquads serializers and Literal.n3(), read back by an independent grammar reader)",
         ],
-        "explanation": "Only the label-to-node mapping is a data-structure property within reach; everything else about "
-                       "concrete syntax is bounded.",
+        "explanation": "The label-to-node mapping is a data-structure property within reach; the literal escapers are "
+                       "one-character replace chains, i.e. string homomorphisms, whose grammar conformance and round trip "
+                       "reduce to per-character obligations over the integers; everything else about concrete syntax is bounded.",
         "assumptions": A_COMMON,
-        "level_text": "Proof of the blank-node label mapping of the N-Triples/N-Quads reader; all spelling clauses bounded; "
-                      "'other'.",
+        "level_text": "Proof of the blank-node label mapping of the readers and of the literal escapers of the N-Triples / "
+                      "N-Quads writers (grammar conformance + reads back as the same string, all strings); all input-spelling "
+                      "clauses bounded; 'other'.",
         "level_note": "Trusted: BNode() freshness; the strict line grammar in bounded/c05.py is a transcription of the RDF "
                       "1.1 N-Triples/N-Quads EBNF.",
     },
@@ -428,11 +456,16 @@ PROPS = {
     },
     "C07": {
         "modules": ["contracts.c07_terms"],
-        "extra": [{"kind": "vt", "name": "term-law-lemmas", "module": "contracts.c07_terms"}],
+        "extra": [{"kind": "vt", "name": "term-law-lemmas", "module": "contracts.c07_terms"},
+                  {"kind": "vt", "name": "string-escapers", "module": "contracts.c05_escapes"}],
         "claim_level": "other",
         "design_ref": "6.7",
         "technique": TECH,
         "clauses_decided": [
+            "n3() text of a single-line literal: the quoted string written by Literal._quote_encode is a sequence of "
+            "STRING_LITERAL_QUOTE items that the Turtle / SPARQL grammar reads back as exactly the literal's string, for all "
+            "strings without a newline (per-character obligations from the real replace chain, z3 over every code point; "
+            "homomorphism lemma assumed) - proved; shared with C05",
             "Identifier.__eq__/__ne__, Literal.__eq__, Literal.__hash__, Identifier.__lt__/__gt__ are proved equal to "
             "spec functions (same kind and text; literal: text, datatype, lower-cased language; kind ranking table read "
             "from the source, string order within a kind)",
